@@ -15,6 +15,8 @@
    never change.
 
    Environment actions: PodStep(p) (PendingUnscheduled -> PendingScheduled -> Running -> Done),
+   PodDelete(p) (the pod object disappears - garbage collection, scale to zero, eviction - from any
+   state; a pod group can go down to ZERO pods and must then report empty sums),
    Flip(g) (the group's preemptibility changes: spec.preemptibility or priority class edited).
    Controller actions: ReconcilePodGroup(g), ReconcileQueue(q), in any order.
 
@@ -46,7 +48,7 @@ CONSTANTS Parent, GroupQueue, PodGroupOf, PodReq,   \* model: the scenario
           ClearStale                                  \* model: see above
 
 VARIABLES par, gq, pgof, preq,     \* scenario
-          st,                      \* pod -> "PU" | "PS" | "R" | "D"
+          st,                      \* pod -> "PU" | "PS" | "R" | "D" | "X" (deleted: the object is gone)
           pre,                     \* group -> BOOLEAN (currently preemptible)
           pgst,                    \* group -> [req, alloc, nonpre]
           qst,                     \* queue -> [req, alloc, nonpre]
@@ -119,8 +121,15 @@ AfterRecQ(q, w) ==
   /\ UNCHANGED <<pgfresh, pgfix>>
 
 \* actions -------------------------------------------------------------------------------------------
+PodDelete(p) ==
+  /\ n < MaxEvents /\ st[p] # "X"
+  /\ st' = [st EXCEPT ![p] = "X"]
+  /\ EnvChange(pgof[p])
+  /\ n' = n + 1 /\ last' = [a |-> "Del", i |-> p, w |-> 0, ch |-> FALSE, fix |-> FALSE]
+  /\ UNCHANGED <<par, gq, pgof, preq, pre, pgst, qst>>
+
 PodStep(p) ==
-  /\ n < MaxEvents /\ st[p] # "D"
+  /\ n < MaxEvents /\ st[p] \notin {"D", "X"}
   /\ st' = [st EXCEPT ![p] = Next4(st[p])]
   /\ EnvChange(pgof[p])
   /\ n' = n + 1 /\ last' = [a |-> "Pod", i |-> p, w |-> 0, ch |-> FALSE, fix |-> FALSE]
@@ -153,13 +162,13 @@ ReconcileQueue(q) ==
      /\ n' = n + 1 /\ last' = [a |-> "RecQ", i |-> q, w |-> w, ch |-> w > 0, fix |-> qfix[q]]
      /\ UNCHANGED <<par, gq, pgof, preq, st, pre, pgst>>
 
-Next == \/ \E p \in Pods : PodStep(p)
+Next == \/ \E p \in Pods : PodStep(p) \/ PodDelete(p)
         \/ \E g \in Groups : Flip(g) \/ ReconcilePodGroup(g)
         \/ \E q \in Queues : ReconcileQueue(q)
 Spec == Init /\ [][Next]_vars
 
 (* ---------------------------------------------------------------------------------------------- *)
-TypeOK == /\ \A p \in Pods : st[p] \in {"PU", "PS", "R", "D"}
+TypeOK == /\ \A p \in Pods : st[p] \in {"PU", "PS", "R", "D", "X"}
           /\ \A g \in Groups : pre[g] \in BOOLEAN /\ pgfresh[g] \in BOOLEAN
           /\ n \in 0..MaxEvents
 
